@@ -149,7 +149,7 @@ fn main() {
             let mut ninputs = 0u64; let mut nontrivial = 0u64;
             for gi in 0..ngram {
                 let cfg = GenCfg { extras: EXTRAS, guarded: true, stack_ops: gi % 2 == 0, tags: EXTRAS && gi % 4 == 1, max_rules: 5, max_depth: 5, builtin_names: true, tag_shapes: TAG_SHAPES };
-                let rules = if gi < 48 { gen_grammar_idiom(&mut rng, &cfg, gi) } else { gen_grammar(&mut rng, &cfg) };
+                let rules = if gi < 60 { gen_grammar_idiom(&mut rng, &cfg, gi) } else { gen_grammar(&mut rng, &cfg) };
                 let orules = match catch(|| pest_meta::optimizer::optimize(rules.clone())) { Ok(o) => o, Err(_) => continue };
                 let srules = show_orules(&orules);
                 let l = format!("G {}", srules);
@@ -158,7 +158,7 @@ fn main() {
                 if gi < nbeh {
                     let alpha = alphabet(&rules);
                     // the idiom grammars need a few characters more (pushes, a repetition, a reader): longer inputs over fewer symbols
-                    let mut inputs = if gi < 48 { all_inputs(&alpha[..alpha.len().min(4)], len + 2) } else { all_inputs(&alpha[..alpha.len().min(5)], len) };
+                    let mut inputs = if gi < 60 { all_inputs(&alpha[..alpha.len().min(4)], len + 2) } else { all_inputs(&alpha[..alpha.len().min(5)], len) };
                     for _ in 0..10 { let n = rng.range(len + 1, len + 5); let mut s = String::new(); for _ in 0..n { s.push_str(*rng.pick(&alpha[..])); } inputs.push(s); }
                     let ins = inputs.iter().map(|x| hexs(x)).collect::<Vec<_>>().join(" ");
                     for r in rules.iter().filter(|r| r.name != "WHITESPACE" && r.name != "COMMENT").take(2) {
